@@ -272,6 +272,8 @@ def validate_traces(run: Run, sc, records: dict, label: str) -> None:
 
 def run_config(run: Run, sc, pool, label, kind, consts, invariants, strength, cap) -> None:
     apool = _init()
+    if label.startswith("samecross"):          # four operand objects (a, b, c, X): every order of every three is enough
+        strength, cap = min(strength, 3), min(cap, 10)
     cmap = vx.mc_module(sc, "VecAlgebra", f"MC_{label}", consts)
     bounds = {k: (sorted(v) if isinstance(v, (set, frozenset)) else v) for k, v in consts.items() if k != "Assigns"}
     if kind == "none":
